@@ -35,6 +35,7 @@ func opts() simkit.Options {
 			o.Seed = uint64(n)
 		}
 	}
+	o.OutRoot = os.Getenv("VERIF_OUT")
 	o.AtlasBin = os.Getenv("ATLAS_BIN")
 	if self, err := os.Executable(); err == nil {
 		o.Self, _ = filepath.Abs(self)
